@@ -169,6 +169,11 @@ def _worker(args):
 
     def evaluate(case, ev):
         pr, route, k, j, ki = case
+        try:
+            P.evaluate(pr)      # programs whose result the language does not fix (machine-integer overflow, step budget) are not compared
+        except P.OutOfModel:
+            ev.classes["out_of_model"] += 1
+            return None
         if route == "interp":
             k = ki
         src = P.render(pr)
